@@ -2,7 +2,7 @@
    `agrees st builder spec` (Proofs/C07_lemmas.v): spec = Some r  -> the builder succeeds and what reaches the wire
    is exactly the ISO frame of r; spec = None (outside the documented domain) -> the builder fails. *)
 From Coq Require Import ZArith List Bool String.
-From UDS Require Import Lib.Bytes Lib.ErrM Spec.IsoRequests Model.Message Model.Client Model.Services Model.Helpers
+From UDS Require Import Lib.Bytes Lib.ErrM Model.Svc_Dtc Spec.IsoRequests Model.Message Model.Client Model.Services Model.Helpers
   Model.MemLoc Model.Svc_Simple Model.Svc_Memory Model.Svc_Did Model.History Proofs.Client_lemmas Proofs.C07_lemmas Proofs.C14_lemmas.
 Import ListNotations.
 Open Scope Z_scope.
@@ -98,7 +98,22 @@ Theorem C07_link_control_is_the_call : forall cfg st ct b now s,
   single_request cfg st (x <- lc_arg b ;; lc_make_client ct x) (echo1_interpret ct) no_post now s.
 Proof. exact link_control_call. Qed.
 
-(* C07_partial: the builders of io_control, dynamically_define_did (define), request_file_transfer,
-   authentication and read_dtc_information are not yet characterised by a Coq theorem against Spec/IsoRequests.v; for
+(* read_dtc_information: all 27 report types with a layout, every combination of present / absent / out-of-range arguments (status and
+   severity masks, severity given as object or integer, DTC class, DTC, both record numbers, memory selection, functional group),
+   every edition: accepted exactly when ISO has a frame for it, and then that frame.  (0x1A and 0x56 are "todo" in the library.) *)
+Theorem C07_read_dtc_information : forall st cfg sub a, sub <> 26 -> sub <> 86 ->
+  agrees st (rdtci_make cfg sub a)
+    (iso_read_dtc (std cfg) sub (da_status a) (da_severity a) (da_sev_obj a) (da_class a) (da_dtc a) (da_snap a) (da_ext a) (da_memsel a) (da_fgid a)).
+Proof. exact rdtci_agrees. Qed.
+Print Assumptions C07_read_dtc_information.
+
+(* dynamically_define_did by source identifiers: any number of entries *)
+Theorem C07_define_by_did : forall st cfg did entries,
+  agrees st (dddi_define_make cfg did (DefByDid entries)) (iso_define_by_did did entries).
+Proof. exact define_by_did_agrees. Qed.
+Print Assumptions C07_define_by_did.
+
+(* C07_partial: the builders of io_control, dynamically_define_did by memory address (its widths: C14), request_file_transfer,
+   and authentication are not yet characterised by a Coq theorem against Spec/IsoRequests.v; for
    them the documented domain and the exact frame are checked by the boundary-complete correspondence against the
    independent oracle tools/harness/isospec.py (same statement, evaluated on the implementation and on the model). *)
